@@ -29,6 +29,7 @@ class Net:
         self.bound: dict[str, "Socket"] = {}
         self.on_send: Callable | None = None
         self.nsock = 0
+        self.local_prefixes: tuple = ()  # addresses that never cross the network (delivered at once, no faults)
         outer = self
 
         class Socket:
@@ -75,7 +76,7 @@ class Net:
                 outer.sent_log.append((self.addr, fr))
                 if outer.on_send is not None:
                     outer.on_send(self, fr)
-                if outer.staged:
+                if outer.staged and not self.addr.startswith(outer.local_prefixes):
                     outer.flight.append((self.addr, fr, self.tag))
                 else:
                     outer.queues[self.addr].append(fr)
